@@ -20,6 +20,7 @@ deriving DecidableEq, Repr
 inductive Res where
   | ret (v : Nat) | exc (e : Nat)
   | retNone                -- falls off the end (only if the final call were missing)
+  | handlerError           -- the `except` block itself raised (AttributeError while formatting the log message)
 deriving DecidableEq, Repr
 
 inductive Ev where
@@ -61,6 +62,12 @@ def loop (script : Nat → Outc) (attempts : Int) : (fuel : Nat) → (attempt : 
 
 def retry (script : Nat → Outc) (attempts : Int) : Run :=
   loop script attempts ((attempts - initAttempt).toNat + 1) initAttempt 0
+
+/-- `retry_func` applied to a callable that has (`named`) or lacks a `__name__`: functions, lambdas, bound methods have one,
+    `functools.partial` objects and instances with `__call__` do not.  The handler runs for the first time after invocation 0. -/
+def retryFor (named : Bool) (script : Nat → Outc) (attempts : Int) : Run :=
+  if handlerNeedsName && !named && loopGuard initAttempt attempts && !isStop (script 0) then ⟨[.call 0], .handlerError⟩
+  else retry script attempts
 
 def Run.calls (r : Run) : Nat := (r.trace.filter (fun e => e != .sleep)).length
 def Run.sleeps (r : Run) : Nat := (r.trace.filter (fun e => e == .sleep)).length
